@@ -17,3 +17,16 @@ def concretize(*vals):
         return vals if len(vals) != 1 else vals[0]
     out = tuple(realize(v) for v in vals)
     return out if len(out) != 1 else out[0]
+
+
+def pick(v, lo, hi):
+    """Concrete int equal to v (lo <= v <= hi), obtained by ordinary branching (one fork per candidate value), which CrossHair's
+    path tree exhausts reliably; `realize` was measured to revisit the same values many times."""
+    for c in range(lo, hi):
+        if v == c:
+            return c
+    return hi
+
+
+def pickb(b):
+    return True if b else False
